@@ -1837,42 +1837,49 @@ Definition gen_body (maxq : nat) (o : pop) (s : pool) : outcome pool pres :=
   | PSize => Ret s (RSize (length (queue s))) []
   end.
 
+(* the link lemmas are proved by case analysis on the comparisons / booleans, so that a harmless
+   rewriting of a guard (commuted operands, ...) still checks while a changed guard does not *)
+Ltac cmp_cases :=
+  repeat match goal with
+         | |- context [Z.gtb ?a ?b] => rewrite (Z.gtb_ltb a b)
+         | |- context [Z.geb ?a ?b] => rewrite (Z.geb_leb a b)
+         end;
+  repeat match goal with
+         | |- context [Z.ltb ?a ?b] => destruct (Z.ltb_spec a b)
+         | |- context [Z.leb ?a ?b] => destruct (Z.leb_spec a b)
+         | |- context [Z.eqb ?a ?b] => destruct (Z.eqb_spec a b)
+         | |- context [Nat.ltb ?a ?b] => destruct (Nat.ltb_spec a b)
+         | |- context [Nat.leb ?a ?b] => destruct (Nat.leb_spec a b)
+         end;
+  cbn; try reflexivity; try lia.
+
 Lemma link_isFull : forall m (q : list task), gen_isFull (Z.of_nat m) (Z.of_nat (length q)) = isFull m q.
-Proof.
-  intros m q. unfold gen_isFull, isFull. f_equal.
-  - destruct (0 <? m) eqn:E.
-    + apply Nat.ltb_lt in E. apply Z.gtb_lt. lia.
-    + apply Nat.ltb_ge in E. rewrite Z.gtb_ltb. apply Z.ltb_ge. lia.
-  - destruct (m <=? length q) eqn:E.
-    + apply Nat.leb_le in E. apply Z.geb_le. lia.
-    + apply Nat.leb_gt in E. rewrite Z.geb_leb. apply Z.leb_gt. lia.
-Qed.
+Proof. intros m q. unfold gen_isFull, isFull. cmp_cases. Qed.
 
 Lemma link_take_notifies : forall m, gen_take_notifies (Z.of_nat m) = (0 <? m).
-Proof.
-  intros m. unfold gen_take_notifies. destruct (0 <? m) eqn:E.
-  - apply Nat.ltb_lt in E. apply Z.gtb_lt. lia.
-  - apply Nat.ltb_ge in E. rewrite Z.gtb_ltb. apply Z.ltb_ge. lia.
-Qed.
+Proof. intros m. unfold gen_take_notifies. cmp_cases. Qed.
 
 Lemma link_take_waits : forall (q : list task) r,
   gen_take_waits (match q with [] => true | _ => false end) r = take_waits q r.
-Proof. reflexivity. Qed.
+Proof. intros [|k q] [|]; reflexivity. Qed.
+
+Lemma link_take_pops : forall b, gen_take_pops b = negb b.
+Proof. intros [|]; reflexivity. Qed.
 
 Lemma link_run_waits : forall m (q : list task) r,
   gen_run_waits (gen_isFull (Z.of_nat m) (Z.of_nat (length q))) r = run_waits m q r.
-Proof. intros. unfold gen_run_waits, run_waits. rewrite link_isFull. reflexivity. Qed.
+Proof. intros m q r. unfold run_waits. rewrite <- link_isFull. destruct (gen_isFull _ _), r; reflexivity. Qed.
 
 Lemma link_run_rejects : forall r, gen_run_rejects r = negb r.
-Proof. reflexivity. Qed.
+Proof. intros [|]; reflexivity. Qed.
 
 Lemma link_worker_loops : forall r, gen_worker_loops r = r.
-Proof. reflexivity. Qed.
+Proof. intros [|]; reflexivity. Qed.
 
 Theorem link_body : forall maxq o s, gen_body maxq o s = pool_body maxq o s.
 Proof.
   intros maxq o s. unfold gen_body, pool_body. destruct o as [k| | |]; auto.
   - rewrite link_run_waits, link_run_rejects. reflexivity.
-  - rewrite link_take_waits, link_take_notifies. unfold gen_take_pops.
+  - rewrite link_take_waits, link_take_notifies, link_take_pops.
     destruct (queue s); cbn [negb]; destruct (take_waits _ _); reflexivity.
 Qed.
